@@ -125,7 +125,10 @@ pub fn to_sqlite(d: Dialect, sql: &str) -> Result<String, TErr> {
         let t = &toks[i].tok;
         match t {
             Tok::Ident(s) => out.push(enc_ident(Dialect::Sqlite, s)),
-            Tok::Str(s) => out.push(enc_str(Dialect::Sqlite, s)),
+            // SQLite reads a single-quoted string as an identifier where only an identifier fits (a documented quirk); a string literal
+            // of the source dialect is therefore written as a parenthesised expression, which keeps its value wherever a value is
+            // allowed and is a syntax error wherever the source dialect had put a string in place of a name
+            Tok::Str(s) => out.push(format!("({})", enc_str(Dialect::Sqlite, s))),
             Tok::Bytes(b) => out.push(enc_bytes(Dialect::Sqlite, b)),
             Tok::Param(None) => out.push("?".into()),
             Tok::Param(Some(n)) => out.push(format!("?{n}")),
